@@ -16,8 +16,12 @@
 
 double sc_time_stamp() { return 0; }
 
-constexpr size_t RESET_BEGIN = 1;
+// Reset is asserted from the very first clock edge, so that nothing executes
+// from the randomised power-on state of the registers.
 constexpr size_t RESET_END = 10;
+
+/// Return true if reset is asserted at the clock edge at the given time.
+static bool inReset(uint64_t time) { return time < RESET_END; }
 
 hex::HexSimIO io(std::cin, std::cout);
 
@@ -97,7 +101,7 @@ int run(const std::unique_ptr<VerilatedContext> &contextp,
   int exitCode = 0;
 
   // Set input signals
-  top->i_rst = 0;
+  top->i_rst = 1;
   top->i_clk = 0;
 
   while (!contextp->gotFinish() &&
@@ -107,11 +111,7 @@ int run(const std::unique_ptr<VerilatedContext> &contextp,
     top->i_clk = !top->i_clk;
     // Assert reset initially.
     if (top->i_clk) {
-      if (contextp->time() > RESET_BEGIN && contextp->time() < RESET_END) {
-        top->i_rst = 1; // Assert reset
-      } else {
-        top->i_rst = 0; // Deassert reset
-      }
+      top->i_rst = inReset(contextp->time()) ? 1 : 0;
     }
     // Evaluate the design.
     top->eval();
@@ -127,8 +127,9 @@ int run(const std::unique_ptr<VerilatedContext> &contextp,
                      % static_cast<unsigned>(top->hex->u_processor->instr)
                      % instr;
     }
-    // Handle syscalls
-    if (top->i_clk && top->o_syscall_valid) {
+    // Handle syscalls. The request is for the instruction that executes at the
+    // next rising clock edge, so ignore it while that edge is still in reset.
+    if (top->i_clk && top->o_syscall_valid && !inReset(contextp->time() + 2)) {
       auto syscall = static_cast<hex::Syscall>(top->o_syscall);
       handleSyscall(syscall, top, exitCode, trace);
       if (syscall == hex::Syscall::EXIT) {
